@@ -86,7 +86,8 @@ def fn_breakdown(res):
 
 
 def write_evidence(pid, tier, seed, m, sel, violations, samples, wall, undecided=None, cmd=None, extra=None):
-    os.makedirs(os.path.join(VERIF, "evidence"), exist_ok=True)
+    evdir = os.environ.get("PQ_EVIDENCE_DIR", os.path.join(VERIF, "evidence"))
+    os.makedirs(evdir, exist_ok=True)
     cov = {
         "obligations": 0, "discharged": 0,
         "checker_cmd": " ".join(cmd) if cmd else "verus gen/<id>/pq_verif.rs (not run)",
@@ -99,7 +100,7 @@ def write_evidence(pid, tier, seed, m, sel, violations, samples, wall, undecided
         cov["undecided"] = undecided
     ev = {"property_id": pid, "tier": tier, "seed": seed, "level": "proof", "coverage": cov,
           "assumptions": ASSUMPTIONS, "wall_s": round(wall, 2), "violations": len(violations)}
-    json.dump(ev, open(os.path.join(VERIF, "evidence", pid + ".json"), "w"), indent=1)
+    json.dump(ev, open(os.path.join(evdir, pid + ".json"), "w"), indent=1)
     return ev
 
 
@@ -121,6 +122,17 @@ def report(pid, tier, seed, m, sel, res, findings, cmd, t0, outdir):
     mine = [f for f in findings if pid in f["tags"]]
     undecided = [f for f in findings if f["kind"] in ("rlimit", "untagged", "tool") and (f["fn"] is None or f["fn"] in selected)]
     others = [f for f in findings if f not in mine and f not in undecided and f["fn"] in selected]
+    # A failed assertion / invariant / call precondition is *assumed* by the verifier for the rest of the function body,
+    # so obligations that come after it may verify vacuously.  If such a failure (of another property) sits in a function
+    # that also carries clauses of this property, this property is not decided there.
+    masked = []
+    for f in others:
+        low = f["msg"].lower()
+        if "postcondition" in low or f["fn"] is None:
+            continue
+        fn = m["functions"].get(f["fn"], {})
+        if any(pid in m["clauses"][c]["tags"] for c in fn.get("clauses", []) if c in m["clauses"]):
+            masked.append(f)
     known = known_findings()
     new_viol, known_hit = [], []
     for f in mine:
@@ -153,6 +165,9 @@ def report(pid, tier, seed, m, sel, res, findings, cmd, t0, outdir):
         "functions_new_in_source_without_contract": m.get("without_record", []),
         "vacuity_probes": {"planted": sel.get("probes", (0, 0))[0], "surviving": sel.get("probes", (0, 0))[1],
                            "rule": "assert(false) at the entry of every selected function and loop body must be rejected by Verus"},
+        "thorough_rewrite_roundtrip": sel.get("roundtrip"),
+        "thorough_detection_selftest": sel.get("selftest"),
+        "thorough_indexmap_stub_audit": sel.get("stub_audit"),
         "generated_cost_obligations": [{"id": o["id"], "declared": o["declared"], "derived": o["derived"]} for o in sel.get("extra_obligations", [])][:80],
         "other_properties_failing_in_shared_functions": sorted(set(t for f in others for t in f["tags"])),
     }
@@ -162,7 +177,7 @@ def report(pid, tier, seed, m, sel, res, findings, cmd, t0, outdir):
         lines.append("KNOWN-FINDING: property=%s %s (%s)" % (pid, f["clause"] or f["fn"], f["msg"]))
     if new_viol:
         rc = 1
-        rdir = os.path.join(VERIF, "replays")
+        rdir = os.environ.get("PQ_REPLAY_DIR", os.path.join(VERIF, "replays"))
         os.makedirs(rdir, exist_ok=True)
         rpath = os.path.join(rdir, "%s.replay.txt" % pid)
         with open(rpath, "w") as fh:
@@ -181,8 +196,11 @@ def report(pid, tier, seed, m, sel, res, findings, cmd, t0, outdir):
         lines.append("VIOLATION property=%s replay=%s no-failing-input-found" % (pid, rpath))
         for f in new_viol[:40]:
             lines.append("  failed obligation: %s in %s: %s" % (f["clause"] or f.get("cost_id") or "built-in", f["fn"], f["msg"]))
-    elif undecided or sel.get("undecided_functions"):
+    elif undecided or sel.get("undecided_functions") or masked:
         rc = 2
+        for f in masked[:10]:
+            lines.append("UNDECIDED property=%s: its obligations in %s may be masked by the failure of %s (%s), which the verifier assumes afterwards"
+                         % (pid, f["fn"], f["clause"] or "a built-in obligation", f["msg"]))
         for key, why in sel.get("undecided_functions", []):
             lines.append("UNDECIDED property=%s: function %s could not be brought into the verifier's input (%s); its contract is assumed for callers" % (pid, key, why))
         for f in undecided[:10]:
